@@ -783,8 +783,8 @@ def main():
 
     quick = tier == "quick"
     nproc = 8 if quick else 14
-    n_seq = 300 if quick else 8000
-    n_rand = 100 if quick else 4000
+    n_seq = 300 if quick else 7000
+    n_rand = 100 if quick else 3000
     tasks = []
     for i in range(n_seq):
         tasks.append(("seq", "paths" if i % 5 else "nopaths", i))
